@@ -139,6 +139,14 @@ func strip(v ssa.Value) ssa.Value {
 			if x.Op != token.MUL {
 				return v
 			}
+			if fv, isFV := x.X.(*ssa.FreeVar); isFV {
+				// load of a captured cell: resolve to the value the enclosing function stored, when unambiguous
+				if r := freeVarStored(fv); r != nil {
+					v = r
+					continue
+				}
+				return v
+			}
 			al, ok := x.X.(*ssa.Alloc)
 			if !ok {
 				return v
@@ -539,4 +547,67 @@ func freeVarReadOnly(fv *ssa.FreeVar, d int) bool {
 		}
 	}
 	return true
+}
+
+// freeVarStored returns the single value stored into the cell captured as fv (nil when the cell is written
+// more than once, written by a closure, or cannot be found). The result belongs to the enclosing function.
+func freeVarStored(fv *ssa.FreeVar) ssa.Value {
+	fn := fv.Parent()
+	parent := fn.Parent()
+	if parent == nil {
+		return nil
+	}
+	idx := -1
+	for i, f := range fn.FreeVars {
+		if f == fv {
+			idx = i
+		}
+	}
+	var cell *ssa.Alloc
+	for _, b := range parent.Blocks {
+		for _, in := range b.Instrs {
+			mc, ok := in.(*ssa.MakeClosure)
+			if !ok || mc.Fn != ssa.Value(fn) || idx < 0 || idx >= len(mc.Bindings) {
+				continue
+			}
+			switch bnd := mc.Bindings[idx].(type) {
+			case *ssa.Alloc:
+				if cell != nil && cell != bnd {
+					return nil
+				}
+				cell = bnd
+			case *ssa.FreeVar:
+				return freeVarStored(bnd)
+			default:
+				return nil
+			}
+		}
+	}
+	if cell == nil {
+		return nil
+	}
+	var stored ssa.Value
+	for _, r := range *cell.Referrers() {
+		switch y := r.(type) {
+		case *ssa.Store:
+			if y.Addr != ssa.Value(cell) || stored != nil {
+				return nil
+			}
+			stored = y.Val
+		case *ssa.UnOp, *ssa.DebugRef:
+		case *ssa.MakeClosure:
+			cf, _ := y.Fn.(*ssa.Function)
+			if cf == nil {
+				return nil
+			}
+			for bi, bv := range y.Bindings {
+				if bv == ssa.Value(cell) && bi < len(cf.FreeVars) && !freeVarReadOnly(cf.FreeVars[bi], 0) {
+					return nil
+				}
+			}
+		default:
+			return nil
+		}
+	}
+	return stored
 }
